@@ -200,6 +200,10 @@ def sanity_reclass(schema):
     return f
 
 
+# checks that also run on the crafted TL2-origin schema (tl2_shapes)
+TL2_SHAPE_MODES = {"c03", "c05", "c08", "c09", "c10", "c43"}
+
+
 def simple_check(ctx, mode, rule, require, quick_values, thorough_values, configs_quick=("tl2all",), configs_thorough=("tl2all", "split", "nobytes"),
                  count_keys=("values",), env=None, fill_death_is_violation=False, sets_quick=None, mem_gb=6, random_quick=0, random_thorough=0, oom_is_violation=False, extra_texts=()):
     thorough = ctx.tier == "thorough"
@@ -214,6 +218,8 @@ def simple_check(ctx, mode, rule, require, quick_values, thorough_values, config
         t, _ = run_mode(ctx, p, mode, env=e, fill_death_is_violation=fill_death_is_violation, mem_gb=mem_gb, oom_is_violation=oom_is_violation)
         for k, v in t.items():
             tot[k] = tot.get(k, 0) + v
+    if mode in TL2_SHAPE_MODES:
+        extra_texts = list(extra_texts) + [("shapes.tl2", tl2_shapes())]
     for xname, xtext in extra_texts:
         xp = os.path.join(ctx.work, "crafted_%s_%s" % (mode, xname if xname.endswith(".tl2") else xname + ".tl"))
         with open(xp, "w") as f:
